@@ -5,12 +5,14 @@ import os
 import signal
 import sys
 import threading
+import time
 
 ckpt_dir, oplog, kill_at, asyn, kind, K, f, m = sys.argv[1], sys.argv[2], int(sys.argv[3]), int(sys.argv[4]), sys.argv[5], int(sys.argv[6]), int(sys.argv[7]), int(sys.argv[8])
 resume = len(sys.argv) > 9 and sys.argv[9] == "resume"      # second stage: rebuild from the directory with restore(), keep checkpointing into it
 _fd = os.open(oplog, os.O_WRONLY | os.O_CREAT | os.O_APPEND, 0o644)
 _lock = threading.Lock()
 _count = [0]
+_slow = float(os.environ.get("MDPAXV_SLOW_COMMIT", "0") or 0)
 
 
 def _full(path, dir_fd):
@@ -36,6 +38,8 @@ def _wrap(name, orig, two=False):
                 os.fsync(_fd)
                 if kill_at and n == kill_at:
                     os.kill(os.getpid(), signal.SIGKILL)
+        if rel and _slow and name in ("rename", "replace") and ".orbax-checkpoint-tmp" in os.path.basename(src):
+            time.sleep(_slow)        # slow storage: the commit of a checkpoint takes a while, so later save requests arrive while it is in flight
         r = orig(*a, **kw)
         if rel:
             with _lock:
